@@ -26,6 +26,7 @@ class TypeFlow:
         self.calls = {}  # id(call node) -> set of (Func, bound)
         self.call_nodes = []  # (call node, Func-or-None, module)
         self.untyped_fallback = set()
+        self.applied_returns = {}  # helper qual -> parameters whose application it returns (`return p(...)`)
         self.partial_shift = {}  # callee qual -> numbers of positional arguments fixed by functools.partial somewhere
         self.unresolved = []
         self.fld_index = {}
@@ -238,6 +239,31 @@ class TypeFlow:
             return self.ev(e.value, f, mod)
         return set()
 
+    def _applicator_params(self, f):
+        """Parameters of f that are only ever applied (`p(...)`): never stored, returned as a value, passed on or compared."""
+        memo = self.__dict__.setdefault("_appl", {})
+        if f.qual in memo:
+            return memo[f.qual]
+        out = set()
+        if not f.is_lambda and f.params:
+            cand = set(f.params[1:] if f.cls is not None and not f.is_staticmethod else f.params)
+            uses = {}
+            for n in walk_local(f.node):
+                if isinstance(n, ast.Name) and n.id in cand:
+                    par = getattr(n, "_parent", None)
+                    ok = isinstance(n.ctx, ast.Load) and isinstance(par, ast.Call) and par.func is n
+                    uses.setdefault(n.id, []).append(ok)
+            # nested functions may capture the parameter: not an applicator then
+            nested = {x.id for g in ast.walk(f.node) if isinstance(g, FUNC_NODES) and g is not f.node for x in ast.walk(g) if isinstance(x, ast.Name)}
+            out = {p_ for p_, us in uses.items() if us and all(us) and p_ not in nested}
+        memo[f.qual] = out
+        return out
+
+    def _applicator_ok(self, g):
+        """Site-sensitive treatment is used only for small helpers (methods / functions of the package with a body of a few
+        statements): everything else keeps the plain context-insensitive flow."""
+        return not g.is_lambda and len(list(walk_local(g.node))) <= 60
+
     def _strconsts(self):
         sc = getattr(self, "_sc", None)
         if sc is None:
@@ -274,6 +300,29 @@ class TypeFlow:
                 out.add(("C", v[1], self.site(c, mod)))
             elif v[0] in ("F", "BM"):
                 out |= self._get(("ret", v[1]))
+                ar = self.applied_returns.get(v[1])
+                if ar:
+                    # the helper returns what the function passed *here* for its applied parameter returns
+                    h = P.funcs[v[1]]
+                    ps = list(h.params[1:]) if v[0] == "BM" and h.params else list(h.params)
+                    for pn in ar:
+                        arg = None
+                        if pn in ps and ps.index(pn) < len(c.args):
+                            arg = c.args[ps.index(pn)]
+                        for kw in c.keywords:
+                            if kw.arg == pn:
+                                arg = kw.value
+                        if arg is None:
+                            continue
+                        for w in self.ev(arg, f, mod):
+                            if w[0] in ("F", "BM"):
+                                out |= self._get(("ret", w[1]))
+                            elif w[0] == "K":
+                                out.add(("C", w[1], self.site(c, mod)))
+                            elif w[0] == "C":
+                                m_ = P.method(P.classes[w[1]], "__call__")
+                                if m_ is not None:
+                                    out |= self._get(("ret", m_.qual))
             elif v[0] == "C":
                 m = P.method(P.classes[v[1]], "__call__")
                 if m is not None:
@@ -360,6 +409,14 @@ class TypeFlow:
     def _bind_call(self, c, f, mod):
         P = self.P
         targets = set()
+        if f is not None and isinstance(c.func, ast.Name) and c.func.id in self._applicator_params(f) and self._applicator_ok(f):
+            # `p(...)` inside a helper that only applies its parameter p: the arguments are bound at each call site of the
+            # helper to the functions passed there (below), not to everything that ever flows into p
+            res0 = set()
+            for v in self.callee_vals(c, f, mod):
+                if v[0] in ("F", "BM"):
+                    res0.add((P.funcs[v[1]], v[0] == "BM"))
+            return res0
         cvals = self.callee_vals(c, f, mod)
         fn = c.func
         cargs = list(c.args)
@@ -397,6 +454,18 @@ class TypeFlow:
                 m = P.method(P.classes[v[1]], "__init__")
                 if m is not None:
                     targets.add((m, True, ("C", v[1], self.site(c, mod))))
+                elif any(getattr(k, "is_record", False) for k in P.mro(P.classes[v[1]])):
+                    # generated constructor of a record class: arguments become fields in declaration order
+                    flds = []
+                    for k in reversed(P.mro(P.classes[v[1]])):
+                        flds += [x for x in k.fields if x not in flds]
+                    inst = ("C", v[1], self.site(c, mod))
+                    for i, a in enumerate(cargs):
+                        if i < len(flds) and not isinstance(a, ast.Starred):
+                            self.write_field([inst], flds[i], self.ev(a, f, mod))
+                    for kw in c.keywords:
+                        if kw.arg in flds:
+                            self.write_field([inst], kw.arg, self.ev(kw.value, f, mod))
             elif v[0] == "C":
                 m = P.method(P.classes[v[1]], "__call__")
                 if m is not None:
@@ -443,6 +512,44 @@ class TypeFlow:
             for kw in c.keywords:
                 if kw.arg is not None and (kw.arg in g.params or kw.arg in g.kwonly):
                     self._add(("v", g.qual, kw.arg), self.ev(kw.value, f, mod))
+        # helpers that only apply a parameter: their inner applications happen with this site's function and arguments
+        for g, bound, selfv in targets:
+            ap = self._applicator_params(g)
+            if not ap or not self._applicator_ok(g):
+                continue
+            gps = list(g.params[1:]) if (bound and g.params) else list(g.params)
+            site = {}
+            for i, a in enumerate(cargs):
+                if isinstance(a, ast.Starred):
+                    break
+                if i < len(gps):
+                    site[gps[i]] = a
+            for kw in c.keywords:
+                if kw.arg in gps:
+                    site[kw.arg] = kw.value
+            for inner in walk_local(g.node):
+                if not (isinstance(inner, ast.Call) and isinstance(inner.func, ast.Name) and inner.func.id in ap and inner.func.id in site):
+                    continue
+                for w in self.ev(site[inner.func.id], f, mod):
+                    if w[0] == "F":
+                        tg, tps = P.funcs[w[1]], list(P.funcs[w[1]].params)
+                    elif w[0] == "BM":
+                        tg = P.funcs[w[1]]
+                        tps = list(tg.params[1:])
+                        if tg.params:
+                            self._add(("v", tg.qual, tg.params[0]), {w[2]})
+                    else:
+                        continue
+                    for i, a in enumerate(inner.args):
+                        if isinstance(a, ast.Starred) or i >= len(tps):
+                            break
+                        if isinstance(a, ast.Name) and a.id in site:
+                            vs = self.ev(site[a.id], f, mod)
+                        elif isinstance(a, ast.Name) and a.id in g.params and a.id in g.defaults:
+                            vs = self.ev(g.defaults[a.id], None, g.module)
+                        else:
+                            vs = self.ev(a, g, g.module)
+                        self._add(("v", tg.qual, tps[i]), vs)
         # function values passed to higher-order builtins are called by them
         hof = set()
         if isinstance(fn, ast.Name) and fn.id in ("map", "filter") and c.args:
@@ -561,7 +668,13 @@ class TypeFlow:
                     if it.optional_vars is not None:
                         self.assign(it.optional_vars, self.ev(it.context_expr, f, mod), f, mod)
             elif isinstance(n, ast.Return) and f is not None:
-                self._add(("ret", f.qual), self.ev(n.value, f, mod))
+                ap = self._applicator_params(f)
+                if ap and isinstance(n.value, ast.Call) and isinstance(n.value.func, ast.Name) and n.value.func.id in ap:
+                    # `return p(...)` in a helper that only applies its parameter p: the result belongs to the call site that
+                    # supplied p (added there), not to every caller of the helper
+                    self.applied_returns.setdefault(f.qual, set()).add(n.value.func.id)
+                else:
+                    self._add(("ret", f.qual), self.ev(n.value, f, mod))
             elif isinstance(n, (ast.Yield, ast.YieldFrom)) and f is not None:
                 self._add(("ret", f.qual), self.ev(n.value, f, mod))
             elif isinstance(n, ast.Call):
